@@ -3,7 +3,7 @@ import FluteModel.MultiRecv
 /-
   Line protocol of engine `tsi` (C18).  Endpoint token: `<src|->/<dst>/<port>` (addresses interned as numbers).
 
-    probes <ep>:<tsi> ...            set the probe list used by `fseq`                           -> ok
+    probes <ep>:<tsi> ...            set the probe list used by `fseq` (default: the 8 standard probes) -> ok
     fseq <fop> ...                   fresh MultiReceiver (filtering on), apply the filter ops
                                      (`a:<ep>:<tsi>` `r:<ep>:<tsi>` `A:<ep>` `R:<ep>`), push one data packet per
                                      probe: one bit per probe = session opened                   -> 0110...
@@ -21,8 +21,12 @@ open Flute Flute.MultiRecv Flute.TsiFilter
 
 abbrev MState := State Act Unit
 
+/-- the 8 standard probes: 2 endpoints x (no source | source 7) x TSI 1,2 -/
+def defaultProbes : List (Endpoint × Nat) :=
+  [0, 1].flatMap fun d => [none, some 7].flatMap fun src => [1, 2].map fun tsi => ((⟨src, d, 5000⟩ : Endpoint), tsi)
+
 structure DState where
-  probes : List (Endpoint × Nat) := []
+  probes : List (Endpoint × Nat) := defaultProbes
   timeout : Option Nat := none
   mr : Option MState := none
 
